@@ -584,7 +584,7 @@ class UnionMetaType(StructureMetaType):
         object.__setattr__(obj, "_buf", buf)
         # The members are parsed from a copy of the union's bytes, pointers among them point into the stream itself
         # (a weak reference: the pointers themselves keep the stream alive as long as it is needed)
-        object.__setattr__(obj, "_stream", weakref.ref(stream))
+        object.__setattr__(obj, "_stream", _stream_ref(stream))
 
         if cls.size is not None:
             obj._update()
@@ -630,6 +630,14 @@ class UnionMetaType(StructureMetaType):
         return stream.tell() - offset
 
 
+def _stream_ref(stream: BinaryIO) -> Callable[[], BinaryIO | None]:
+    """A weak reference to the stream, or the stream itself for the rare object that can not be weakly referenced."""
+    try:
+        return weakref.ref(stream)
+    except TypeError:
+        return lambda: stream
+
+
 def _rebind_pointers(value: Any, buf: BinaryIO, stream: BinaryIO | None) -> None:
     """Let the pointers that were parsed from the private buffer of a union point into the stream the union came from.
 
@@ -645,7 +653,7 @@ def _rebind_pointers(value: Any, buf: BinaryIO, stream: BinaryIO | None) -> None
             _rebind_pointers(item, buf, stream)
     elif isinstance(value, Structure):
         if isinstance(value, Union) and "_stream" in value.__dict__:
-            object.__setattr__(value, "_stream", weakref.ref(stream) if stream is not None else None)
+            object.__setattr__(value, "_stream", _stream_ref(stream) if stream is not None else None)
         _rebind_pointers({k: v for k, v in value.__dict__.items() if k != "_stream"}, buf, stream)
 
 
